@@ -301,6 +301,26 @@ fn gen_next_config(ch: &mut Chooser, kind: Kind, cur: (usize, usize, usize)) -> 
     }
 }
 
+/// A configuration next to `cur`: one of the counts halved, doubled or off by one, same shard size.
+fn gen_sibling_config(ch: &mut Chooser, kind: Kind, cur: (usize, usize, usize)) -> (usize, usize, usize) {
+    let (k, r, b) = cur;
+    let fam = kind.layer.family();
+    let vary = |n: usize, how: usize| match how {
+        0 => n / 2,
+        1 => n * 2,
+        2 => n + 1,
+        _ => n.saturating_sub(1),
+    };
+    for _ in 0..6 {
+        let how = ch.pick_usize("sibling.how", 4);
+        let (nk, nr) = if ch.chance("sibling.recovery", 2, 3) { (k, vary(r, how)) } else { (vary(k, how), r) };
+        if nk >= 1 && nr >= 1 && nk + nr <= 3000 && envelope::supported(fam, nk, nr) {
+            return (nk, nr, b);
+        }
+    }
+    cur
+}
+
 fn gen_bad_config(ch: &mut Chooser, kind: Kind, cur: (usize, usize, usize)) -> (usize, usize, usize) {
     let fam = kind.layer.family();
     loop {
@@ -1178,6 +1198,10 @@ struct DecState {
     held: Need,
     rounds: u32,
     since_reset: u32,
+    /// positions (recovery?, index) delivered in the last decoded round of this object
+    last_round: Vec<(bool, usize)>,
+    /// positions the next valid delivery repeats (set by a reset to a sibling configuration)
+    script: Vec<(bool, usize)>,
 }
 
 fn dec_need(kind: Kind, cfg: (usize, usize, usize)) -> Need {
@@ -1202,6 +1226,8 @@ impl DecState {
             held,
             rounds: 0,
             since_reset: 0,
+            last_round: Vec::new(),
+            script: Vec::new(),
         })
     }
     fn clear_round(&mut self) {
@@ -1265,8 +1291,11 @@ pub fn run_decoder(ch: &mut Chooser, ctx: &mut Ctx) {
         match op {
             // ---------------------------------------------------- add valid shards (batch)
             0 => {
+                let mut script: Vec<(bool, usize)> = std::mem::take(&mut st.script).into_iter().filter(|&(is_rec, i)| !(if is_rec { st.given_r[i] } else { st.given_o[i] })).collect();
+                script.reverse();
+                let scripted = !script.is_empty();
                 // how many: one / up to exactly k / surplus / everything of one sort
-                let add_mode = ch.weighted("dec.add.n", &[3, 3, 1, 1, 2]);
+                let add_mode = if scripted { 3 } else { ch.weighted("dec.add.n", &[3, 3, 1, 1, 2]) };
                 // mode 4: a whole aligned block of one kind arrives (what a node or a rack holds): blocks of
                 // 8..64 consecutive indexes, so that received sets are unions of aligned runs
                 let mut block: Option<(bool, usize, usize)> = None;
@@ -1283,6 +1312,7 @@ pub fn run_decoder(ch: &mut Chooser, ctx: &mut Ctx) {
                     1 => k.saturating_sub(have).max(1),
                     2 => k.saturating_sub(have) + 1 + ch.pick_usize("dec.add.surplus", r),
                     4 => block.map_or(1, |b| b.2 - b.1),
+                    _ if scripted => script.len(),
                     _ => 1 + ch.pick_usize("dec.add.cnt", k + r),
                 };
                 let mut block_next = block.map_or(0, |b| b.1);
@@ -1293,7 +1323,11 @@ pub fn run_decoder(ch: &mut Chooser, ctx: &mut Ctx) {
                     if missing_o + missing_r == 0 {
                         break;
                     }
-                    let (is_rec, index) = if let Some((brec, _, bend)) = block {
+                    let (is_rec, index) = if scripted {
+                        let Some(p) = script.pop() else { break };
+                        ctx.count("probe.same_positions_after_sibling_reset");
+                        p
+                    } else if let Some((brec, _, bend)) = block {
                         // next not-yet-given index of the block
                         let given = if brec { &st.given_r } else { &st.given_o };
                         while block_next < bend && given[block_next] {
@@ -1352,6 +1386,9 @@ pub fn run_decoder(ch: &mut Chooser, ctx: &mut Ctx) {
                     }
                     st.adds.push(Add { is_rec, index, data });
                     ctx.count("dec.add_ok");
+                }
+                if scripted && st.n_o + st.n_r >= k && dec_decode(ch, ctx, &mut *obj, &mut st, op_no) {
+                    return;
                 }
             }
             // ---------------------------------------------------- duplicate / out of range / wrong length
@@ -1425,7 +1462,11 @@ pub fn run_decoder(ch: &mut Chooser, ctx: &mut Ctx) {
             }
             // ---------------------------------------------------- reset valid
             5 => {
-                let next = gen_next_config(ch, st.kind, st.cfg);
+                // one reset in three after a decoded round goes to a sibling configuration (one count halved,
+                // doubled or off by one, same shard size) and the next delivery repeats the previous round's
+                // positions: whatever the object derived from "which positions arrived" must not survive
+                let sibling = !st.last_round.is_empty() && ch.chance("reset.sibling", 1, 3);
+                let next = if sibling { gen_sibling_config(ch, st.kind, st.cfg) } else { gen_next_config(ch, st.kind, st.cfg) };
                 let need = dec_need(st.kind, next);
                 let mut acc = AllocStats::default();
                 let res = ctx.guarded(true, || meas(&mut acc, || obj.reset(next.0, next.1, next.2)));
@@ -1456,9 +1497,15 @@ pub fn run_decoder(ch: &mut Chooser, ctx: &mut Ctx) {
                 }
                 let held = grow(st.held, need);
                 let failed_ever = st.failed_ever;
+                let last_round = std::mem::take(&mut st.last_round);
                 let Some(s) = DecState::fresh(ch, ctx, st.kind, next, held, true) else { return };
                 st = s;
                 st.failed_ever = failed_ever;
+                if sibling {
+                    st.script = last_round.iter().copied().filter(|&(is_rec, i)| i < if is_rec { next.1 } else { next.0 }).collect();
+                    ctx.count("probe.reset_to_sibling_config");
+                }
+                st.last_round = last_round;
             }
             // ---------------------------------------------------- reset invalid
             6 => {
@@ -1847,6 +1894,7 @@ fn dec_decode(ch: &mut Chooser, ctx: &mut Ctx, obj: &mut dyn DynDecoder, st: &mu
         }
     }
 
+    st.last_round = st.adds.iter().map(|a| (a.is_rec, a.index)).collect();
     st.clear_round();
     st.rounds += 1;
     st.since_reset += 1;
